@@ -248,6 +248,14 @@ impl<'w> Gen<'w> {
         let mut g = Gen { h, rng, w, stats: Stats::default(), next_id, pending: VecDeque::new(), saved: vec![], thorough };
         g.stats.histories = 1;
         g.emit(&format!("NOTE HIST {} seed={}", name, seed));
+        // legend for human readers of replay files: number -> name
+        let legend = format!(
+            "NOTE NAMES addresses: {} | denoms: {} | token ids: {}",
+            g.h.sim.all_addrs().iter().enumerate().map(|(i, a)| format!("{}={}", i, a)).collect::<Vec<_>>().join(" "),
+            g.h.sim.all_denoms().iter().enumerate().map(|(i, a)| format!("{}={}", i, a)).collect::<Vec<_>>().join(" "),
+            g.h.sim.all_tids().iter().enumerate().map(|(i, a)| format!("{}={}", i, a)).collect::<Vec<_>>().join(" ")
+        );
+        g.emit(&legend);
         g.emit(&init);
         // the freshly instantiated marketplace must be exactly the model's `instantiate` + `reply`
         g.emit("INST");
